@@ -87,7 +87,7 @@ for cls, cmpname in (("MinValue", "le"), ("MaxValue", "ge")):
             # C06: without approval the comparison returns exactly what the plain comparison returns
             "plain-result-without-flags [C06]": "implies(" + NOFLAGS + " and self._old_value is not undefined, same(ret, " + cmp("self._old_value", "other") + "))",
             # C17: what is stored is a deep copy made at comparison time
-            "stores-only-copies [C17,C14]": "same(self._new_value, old(self._new_value)) or same(self._new_value, deepcopy(other))",
+            "stores-only-copies [C17,C14,C08,C01]": "same(self._new_value, old(self._new_value)) or same(self._new_value, deepcopy(other))",
             "records-something [C01,C05]": "self._new_value is not undefined",
             "old-value-untouched [C14,C05]": "same(self._old_value, old(self._old_value))",
         },
@@ -144,7 +144,7 @@ for variant, newty in (("first", "=Ellipsis"), ("later", "List[Val]")):
         ens["records-a-copy [C17,C01,C05]"] = "len(self._new_value) == 1 and same(self._new_value[0], deepcopy(item))"
     else:
         ens["members-kept [C14,C05]"] = "len(self._new_value) >= len(old(self._new_value)) and all(same(self._new_value[i], old(self._new_value)[i]) for i in range(0, len(old(self._new_value))))"
-        ens["appends-only-a-copy [C17,C14]"] = ("len(self._new_value) == len(old(self._new_value)) or (len(self._new_value) == len(old(self._new_value)) + 1"
+        ens["appends-only-a-copy [C17,C14,C08,C01]"] = ("len(self._new_value) == len(old(self._new_value)) or (len(self._new_value) == len(old(self._new_value)) + 1"
                                                 " and same(self._new_value[len(old(self._new_value))], deepcopy(item)))")
         ens["no-duplicate-added [C05]"] = "implies(" + IN_NEW.replace("self._new_value", "old(self._new_value)").format(x="item") + ", len(self._new_value) == len(old(self._new_value)))"
     contract(
